@@ -324,7 +324,8 @@ def check_object(o, d, mon, label):
     reg = registry()
     ctx = contexts()[d]
     try:
-        sql_i = o.get_sql(ctx)
+        with hooks.collect() as tree_i:
+            sql_i = o.get_sql(ctx)
     except Exception:
         mon.count("inline_render_raises")
         return None
@@ -380,6 +381,21 @@ def check_object(o, d, mon, label):
         # localise: which node created the first parameter that is out of order
         return (fault[0], "%s; parameterised %r values %r; inline %r" % (fault[1], sql_p[:260], [repr(v)[:20] for v in values][:12], sql_i[:260]),
                 {"sql_p": sql_p, "values": [repr(v) for v in values], "sql_i": sql_i, "create_param_order": [repr(v)[:30] for v in tree.param_events]})
+    # the value list holds the very constants the statement was built with (same type, same value): whatever the inline render
+    # printed through a value wrapper is what a placeholder may carry
+    built = {}
+    for ev in tree_i.value_events:
+        bv = ev[3]
+        built.setdefault((type(bv).__name__, repr(bv)), 0)
+        built[(type(bv).__name__, repr(bv))] += 1
+    if built:
+        for v in values:
+            if isinstance(v, (list, dict)):
+                continue
+            mon.count("recorded_values_matched_against_built_constants")
+            if (type(v).__name__, repr(v)) not in built:
+                return ("recorded-value-not-a-built-constant:%s" % kind_of(v), "the value list carries %r (%s), which is none of the constants the inline render printed: %s; %r" % (
+                    v, type(v).__name__, sorted(built)[:8], sql_p[:200]), {"sql_p": sql_p, "values": [repr(x) for x in values], "sql_i": sql_i})
     if isinstance(o, reg["QueryBuilder"]) and o.QUERY_CLS is reg[d]:
         # the default path users take: get_parameterized_sql() / get_sql() without a context
         try:
